@@ -23,6 +23,13 @@ def run(ctx):
     r1 = ctx.rule("C20.R1", R1_TEXT, "loop rule")
     stream_fill_rule(ctx, r1)
 
+    # ---- R5 the end flag does not depend on how the source is read ---------------------------------------------
+    from . import c08
+    r5 = ctx.rule("C20.R5", "the close-object flag is decided from the bytes, not from the reader's state: " + c08.R1_TEXT +
+                  "; the byte threshold is the transfer length compared with the source-byte counter (read_end is set at different moments for buffers and "
+                  "streams) - shared with C08.R1", "DEP with listed idioms")
+    c08.close_flag_window_rule(ctx, r5)
+
     # ---- R2 --------------------------------------------------------------------------------
     r2 = ctx.rule("C20.R2", R2_TEXT, "MPT+WWF")
     rewind_rule(ctx, r2)
@@ -254,6 +261,40 @@ def stream_fill_rule(ctx, r1):
                               "the packets then depend on how the stream behaves, not on its bytes", s.loc)
     for s in full:
         r1.ok("read_block_stream %s" % s.term.callee().get("name"), "", s.loc)
+    # the MD5 announced for a stream is computed over the same bytes: the digest loop of ObjectDataStreamTrait::md5 ends only on a read of 0
+    md5s = [p_ for p_ in prog.funcs if re.search(r"ObjectDataStreamTrait.*::md5$", p_)]
+    if not md5s:
+        raise model.AnchorMissing("ObjectDataStreamTrait::md5 not found")
+    m5 = prog.fn(md5s[0])
+    ctx.analysed(m5.path)
+    mls = natural_loops(m5.body)
+    mflow = Flow(m5.body)
+    mreads = [s for s in call_sites(m5, lambda p, c: c.get("name") == "read" and (c.get("trait") or "").endswith("io::Read"))]
+    key = "ObjectDataStreamTrait::md5 reads until a read returns 0"
+    okm = bool(mreads) and bool(mls)
+    exits_seen = 0
+    for h, blocks, srcs in mls:
+        if not any(s.bb in blocks for s in mreads):
+            continue
+        for b in blocks:
+            t = m5.body.blocks[b].term
+            if t.k == "switch":
+                for k in range(len(t.targets) + 1):
+                    tgt = t.targets[k][1] if k < len(t.targets) else t.otherwise
+                    if tgt in blocks or m5.body.blocks[tgt].cleanup or m5.body.blocks[tgt].term.k == "unreachable":
+                        continue
+                    fs = mflow.edge_facts(("e", b, k))
+                    # leaving through `?` (an Err) is fine; a normal exit must be on count == 0
+                    if any(a[0] == "variant" and a[2] in ("Break", "Err") and t_ for (a, t_) in fs):
+                        continue
+                    exits_seen += 1
+                    if not any(a[0] == "eq" and t_ and "0" in (show(a[1]), show(a[2])) and re.search(r"count|read", show(a[1]) + show(a[2])) for (a, t_) in fs):
+                        okm = False
+    if okm and exits_seen:
+        r1.ok(key, "digest loop left only on count == 0", loc(m5.sp))
+    else:
+        r1.violation(key, "the digest loop can end on a read that is merely short: for a source that chunks its data the Content-MD5 announced in the FDT covers a "
+                          "prefix only and differs from the one of the same bytes given as a buffer", loc(m5.sp))
     # the reads go straight to the object's own stream: an adaptor that buffers (BufReader, Take<BufReader>, ...) created for the
     # duration of one block reads ahead and drops the surplus when the block is done, so the next block starts too far
     for s in reads + full:
@@ -264,6 +305,6 @@ def stream_fill_rule(ctx, r1):
         else:
             r1.violation(key, "read() is called on `%s`, not on the object's stream: a per-block adaptor that buffers consumes bytes "
                               "beyond the block and loses them" % selfty, s.loc)
-    r1.floor(2, "stream reads")
+    r1.floor(3, "stream reads")
 
 
